@@ -170,6 +170,7 @@ def handleContracts (bits minRep minLen : Nat) (ws : List Str) (dict : List Dict
   | .error e => "P " ++ panicName e
   | .ok st =>
     "K " ++ (if elimContractsB cfg st.minimized then "1" else "0") ++ " " ++ (if elimContractsB cfg st.trie then "1" else "0")
+      ++ " " ++ (if Dfa.minimizeContractB st.trie Dfa.pickMin then "1" else "0")
 
 def handleLine (line : String) : String :=
   match line.trimAscii.toString.splitOn " " with
